@@ -181,6 +181,15 @@ func evalCase(c *Case) (kind, sig, msg string, removedApplied bool) {
 		} else if st == http.StatusOK {
 			return "C06/empty-cut-resolved", "empty-cut-rest", fmt.Sprintf("REST resolution with %s selects no operation but answered 200: %s", q.Encode(), js(body)), false
 		}
+		// the same version, spelled in a query string that a lenient reader drops instead of refusing (a ';' or a bad percent
+		// escape inside the value): a request that names a version must never be answered with the latest state
+		for _, tail := range []string{";x", "%zz", "%"} {
+			if st, body, pn := restResolveRaw(c, restNS+":"+c.Suffix, pub, unpub, q.Encode()+tail); pn != "" {
+				return "C06/panic", "panic", "REST resolve handler panicked: " + pn, false
+			} else if st == http.StatusOK {
+				return "C06/empty-cut-resolved", "empty-cut-rest-raw-query", fmt.Sprintf("REST resolution with the raw query %q names a version that selects no operation but answered 200: %s", q.Encode()+tail, js(body)), false
+			}
+		}
 		// the same request for the long-form DID of an anchored DID must not fall back to its embedded initial state
 		if lf := longForm(c); lf != "" && len(pub) > 0 && c.Case.Model().Found {
 			if st, body, pn := restResolveDID(c, lf, pub, unpub, q); pn != "" {
